@@ -78,7 +78,7 @@ CHECKS = {
         level_text=("Model-based: property values are tracked per entity identity (uid) independent of handles and "
                     "compared after every step of random histories in all deletion modes; covers bool specialisation, "
                     "half-entity sides, defaults of new slots, clear(), positions."),
-        level_note="3 of the 16 workers run the tetrahedral harness (t_tet) with id C03: cell and vertex property values must follow their entities through collapse_edge; attribs are thin wrappers over these properties.",
+        level_note="3 of the 16 workers run the tetrahedral harness (t_tet) with id C03: cell and vertex property values must follow their entities through collapse_edge. One in five generated properties is an attribute-class view instead of a bare property: ColorAttrib<Vec4f> (all six kinds), StatusAttrib tagged/selected/hidden bits (all six kinds), InterfaceAttrib (vertex/edge/face), TexCoordAttrib<Vec2f>, written and read through the attribute's accessors (also in the C04, C12 and C17 runs).",
     ),
     "C04": dict(
         kind="rc_program", target="t_kernel", level="exploration",
